@@ -383,7 +383,7 @@ pub fn c08(tier: &str, acc: &mut Acc, bounds: &mut Vec<String>) {
     // E2 differential through the public API, all methods, all kinds
     let scopes = if thorough {
         vec![
-            Scope::new(3, 3, 3, Order::Sets, 6, 2),
+            Scope::new(3, 3, 3, Order::Sets, 6, 1),
             Scope::new(2, 4, 3, Order::SetsBothWays, 6, 2),
         ]
     } else {
